@@ -73,7 +73,7 @@ impl Check for C09 {
             for victim in 0..alive.max(1) {
                 for way in WAYS {
                     for queued in 0..3u8 {
-                        if queued == 2 && way != crate::bus::hist::Way::HandleShutdown {
+                        if queued == 2 && !matches!(way, crate::bus::hist::Way::HandleShutdown | crate::bus::hist::Way::WriteFault) {
                             continue;
                         }
                         let plan = FaultPlan { k, victim, way, queued };
